@@ -53,7 +53,7 @@ At(line, f) ==
      [] f = "parse" -> <<"!" \o line.obs.j1.err>>
      [] OTHER -> <<>>
 Report(line, f) ==
-   [case |-> line.case, d |-> line.d, ver |-> line.ver, doc |-> line.c, failed |-> f, at |-> At(line, f),
+   [case |-> line.case, d |-> line.d, ver |-> line.ver, doc |-> line.c, ext |-> line.ext, failed |-> f, at |-> At(line, f),
     class |-> Class(line, f)]
 
 LineOK(line) ==
